@@ -18,6 +18,11 @@ func FindSelection(matchString string, selectionSet ast.SelectionSet) *ast.Field
 
 	// a field of this level wins over a deeper field which answers under the same key
 	for _, s := range fields {
+		// the lookup a child step is wrapped in (node(id: $id) { ... }, made by the planner: a definition
+		// without a type) is not part of the client's path, a key of the client called node is below it
+		if s.Definition != nil && s.Definition.Type == nil {
+			continue
+		}
 		if getFieldDisplayName(s) == matchString {
 			return s
 		}
